@@ -761,8 +761,22 @@ class Exec:
             if isinstance(v, PTuple): items = v.items
             elif isinstance(v, PConst) and isinstance(v.obj, tuple): items = [PConst(x) for x in v.obj]
             starred = [i for i, t in enumerate(target.elts) if isinstance(t, ast.Starred)]
+            if items is None and starred:
+                # `a, *rest = seq` (the starred target last): the leading items and the remaining slice
+                if starred != [len(target.elts) - 1]: raise Unsupported('starred unpack of a symbolic sequence (star not last)')
+                arr, n = seq_of(v, st); outs = []
+                lead = len(target.elts) - 1
+                for s1, ok in self.fork(st, n >= lead, f'L{target.lineno}.unpack'):
+                    if not ok: outs.append((s1, ('raise', PExc('ValueError', val=Val.Obj(fresh('exc', IntSort())), where='unpack')))); continue
+                    fl = [(s1, NEXT)]
+                    for i, t in enumerate(target.elts[:-1]):
+                        fl = [x for s2, f2 in fl for x in (self.assign(s2, t, ZV('val', asel(arr, IntVal(i)))) if f2 is NEXT else [(s2, f2)])]
+                    j = fresh('j', IntSort())
+                    rest = PSeq(z3.Lambda([j], asel(arr, j + lead)), n - lead, 'val', True)
+                    fl = [x for s2, f2 in fl for x in (self.assign(s2, target.elts[-1].value, rest) if f2 is NEXT else [(s2, f2)])]
+                    outs.extend(fl)
+                return outs
             if items is None:
-                if starred: raise Unsupported('starred unpack of a symbolic sequence')
                 arr, n = seq_of(v, st); outs = []
                 for s1, ok in self.fork(st, n == len(target.elts), f'L{target.lineno}.unpack'):
                     if not ok: outs.append((s1, ('raise', PExc('ValueError', val=Val.Obj(fresh('exc', IntSort())), where='unpack')))); continue
